@@ -1,15 +1,29 @@
-"""C08 - bounded relational contracts (E3, see vf/e3/derive.py); E1 obligations are added by the heap engine."""
+"""C08 - reaction graphs decompose and reverse faithfully.
+E1 (proved, unbounded, loop invariants): get_formed_bonds / get_broken_bonds / get_fleeting_bonds return exactly the bonds
+carrying that change and modify nothing (the encoding side - add_*_bond store exactly that change - is part of C09).
+E3 (bounded): from_graphs / reactant / product / reverse_reaction on random reactant-product-TS triples."""
 import time
 
-from ..core import Report
+from ..contracts import graph_ops as G
+from ..core import Report, src_info
 from ..e3 import derive
+from ..par import pmap
 
 
 def run(tier, seed):
     t0 = time.time()
     rep = Report("C08", tier, seed)
-    rep.level = "exploration"
+    rep.level = "other"
+    timeout = 10000 if tier == "quick" else 40000
+    tasks = [("ob_role_query", (c, q, timeout)) for q in G.ROLE_QUERIES for c in ("CondensedReactionGraph", "StereoCondensedReactionGraph")]
+    for obs, _ in pmap("vf.props.e1_graph", tasks):
+        rep.obs.extend(obs)
     derive.run_c08(rep, tier, seed)
-    rep.rule = "E3 scope (DESIGN Appendix B): structured skeleton corpus x element/role/stereo decorations x the operation's argument space; distinct_nontrivial = distinct base graphs"
-    rep.assumptions = ["bounded: only the enumerated scope is covered"]
+    rep.functions = [src_info("graphs/crg.py", f"CondensedReactionGraph.{q}") for q in G.ROLE_QUERIES]
+    proof = [o for o in rep.obs if o.kind == "proof"]
+    rep.rule = "E1: one VC per (class, method, path, clause) incl. loop-invariant init / preservation; E3: random reactant/product/TS triples over the skeleton corpus; distinct_nontrivial = distinct triples"
+    rep.trusted_base = ["pyvc encoding + symbolic heap", "z3 5.1"]
+    rep.assumptions = ["termination of the loops is not proved", "from_graphs / reactant / product / reverse_reaction are covered by the bounded part only"]
+    rep.explanation = f"{len(proof)} proof obligations on the three role queries; decomposition and reversal are bounded (coverage.bounded_groups)"
+    rep.samples = [o.name for o in proof[:: max(1, len(proof) // 6)]][:6]
     return rep, t0
